@@ -412,11 +412,12 @@ func c08ParseCheck(c *config, r *rng, items []c08Item) {
 
 // ---- module level
 
-func c08Module(c *config, r *rng, sample bool) {
-	o := c.out
+// c08ModuleText renders a module shape: named and unnamed global variables, aliases, ifuncs and
+// functions in any textual interleaving, the unnamed ones numbered the way LLVM numbers them
+func c08ModuleText(r *rng) (src string, enc []string, kinds []byte, named []bool) {
 	n := 1 + r.intn(7)
-	kinds := make([]byte, n)
-	named := make([]bool, n)
+	kinds = make([]byte, n)
+	named = make([]bool, n)
 	for i := range kinds {
 		kinds[i] = "GGAIFF"[r.intn(6)]
 		named[i] = r.chance(35)
@@ -425,7 +426,6 @@ func c08Module(c *config, r *rng, sample bool) {
 	var b strings.Builder
 	b.WriteString("@tg = global i32 0\ndeclare void @tf()\n")
 	id := 0
-	var enc []string
 	enc = append(enc, "G:1", "F:1")
 	for i := range kinds {
 		nm := fmt.Sprintf("@%d", id)
@@ -446,7 +446,12 @@ func c08Module(c *config, r *rng, sample bool) {
 		}
 		enc = append(enc, fmt.Sprintf("%c:%s", kinds[i], b2s(named[i])))
 	}
-	src := b.String()
+	return b.String(), enc, kinds, named
+}
+
+func c08Module(c *config, r *rng, sample bool) {
+	o := c.out
+	src, enc, kinds, named := c08ModuleText(r)
 	var text string
 	stage := "parse"
 	oc, msg := guard(func() error {
